@@ -15,4 +15,6 @@ func init() {
 	mut("C06", "tls-without-sni-check", "mitm/mitm.go", "\t\t\tif clientHello.ServerName == \"\" {\n\t\t\t\treturn nil, errors.New(\"mitm: SNI not provided, failed to build certificate\")\n\t\t\t}\n", "", "C06.R7", "TLS$1")
 	twin("C06", "empty-test-via-len", "mitm/mitm.go", "\t\t\tif clientHello.ServerName == \"\" {\n\t\t\t\treturn nil, errors.New(\"mitm: SNI not provided, failed to build certificate\")\n\t\t\t}\n\n\t\t\treturn c.cert(clientHello.ServerName)", "\t\t\tsni := clientHello.ServerName\n\t\t\tif \"\" != sni {\n\t\t\t\treturn c.cert(sni)\n\t\t\t}\n\t\t\treturn nil, errors.New(\"mitm: SNI not provided, failed to build certificate\")")
 	mut("C06", "cert-for-local-address", "mitm/mitm.go", "\t\t\treturn c.cert(clientHello.ServerName)", "\t\t\treturn c.cert(clientHello.Conn.LocalAddr().String())", "C06.R7", "SNI or")
+	mut("C06", "set-organization-noop", "mitm/mitm.go", "\tc.org = org\n", "\t_ = org\n", "C06.R5", "SetOrganization")
+	mut("C06", "set-validity-noop", "mitm/mitm.go", "\tc.validity = validity\n", "\t_ = validity\n", "C06.R5", "SetValidity")
 }
